@@ -276,7 +276,8 @@ def _correspondence(ctx, E, shared):
       r = _call(eqs[cls].nodal_temperature_adiabatic_tendency, aux)
       add(cfg.line('tadiab', cls, a_tok), 'col', f'{cls}.nodal_temperature_adiabatic_tendency',
           r if isinstance(r, str) else rows(r))
-    add(cfg.line('lsp', a_tok), 'vec', 'nodal_log_pressure_tendency', np.asarray(eq.nodal_log_pressure_tendency(aux)).ravel())
+    add(cfg.line('lsp', a_tok), 'vec', 'nodal_log_pressure_tendency',
+        np.asarray(eq.nodal_log_pressure_tendency(aux)).ravel())
     for op, fn in (('humdiv', eqs['moist'].divergence_tendency_due_to_humidity),
                    ('humvort', eqs['moist'].vorticity_tendency_due_to_humidity)):
       r = _call(fn, s_dry, aux)
@@ -370,7 +371,7 @@ def _hypotheses(ctx, E):
     specs = [(M, d) for d in ('quadratic', 'cubic', 'linear') for M in range(4, 12)] + ['T21', 'TL31']
   draws = ctx.n(2, 5)
   worst = {}          # (hypothesis, kind) -> (err, grid name)
-  least = {}          # (product rule, 'linear') -> smallest of the per-grid larger violations
+  least = {}          # 'linear' -> min over the linear grids of the larger of the two product-rule violations
   for spec in specs:
     grid, kind = E.grid(spec)
     ctx.dist[f'hyp-grid={kind}'] += 1
@@ -423,7 +424,7 @@ def _sentinel(ctx, E, shared, validated):
   pr_kinds = validated[PRODUCT_RULES[0]] & validated[PRODUCT_RULES[1]]
   must_invariant_kinds = set()     # grid kinds on which a moist-type momentum probe had to be invariant
   measured = {}                    # (class, kind, group) -> worst relative dependence
-  res_seen = []                    # (kind, relative size of the cloud residual, relative mismatch to its closed form)
+  res_seen = []                    # (kind, wind amplitude, size / total tendency, size / natural scale, mismatch)
 
   def totals(cls, eq_args, tref, st, one, iva=True):
     grid, coords, specs, oro = eq_args
